@@ -45,8 +45,12 @@ mod env_util {
     where
         Str: Into<Cow<'str, str>>,
     {
-        let mut outpath: Cow<str> = path.into();
-        let path = outpath.clone();
+        let path: Cow<str> = path.into();
+        // The expanded path is built in one pass over `path`; it is only allocated once
+        // the first variable is substituted.
+        let mut outpath: Option<String> = None;
+        // End of the part of `path` that has been copied to `outpath` so far.
+        let mut copied = 0;
         for (match_start, _) in path.match_indices(ENV_PREFIX) {
             let env_name_start = match_start + ENV_PREFIX_LEN;
             let (_, tail) = path.split_at(env_name_start);
@@ -68,18 +72,24 @@ mod env_util {
                     if valid {
                         if let Ok(env_value) = std::env::var(&env_name) {
                             let match_end = env_name_start + env_name.len() + ENV_SUFFIX_LEN;
-                            // This simply rewrites the entire outpath with all instances
-                            // of this var replaced. Could be done more efficiently by building
-                            // `outpath` as we go when processing `path`. Not critical.
-                            outpath = outpath
-                                .replace(&path[match_start..match_end], &env_value)
-                                .into();
+                            // Only this reference is replaced: substituting by text, as was
+                            // done before, also rewrote look-alikes produced by earlier values.
+                            let outpath = outpath.get_or_insert_with(String::new);
+                            outpath.push_str(&path[copied..match_start]);
+                            outpath.push_str(&env_value);
+                            copied = match_end;
                         }
                     }
                 }
             }
         }
-        outpath
+        match outpath {
+            Some(mut outpath) => {
+                outpath.push_str(&path[copied..]);
+                outpath.into()
+            }
+            None => path,
+        }
     }
 }
 
